@@ -17,8 +17,9 @@ from gen import c14_revision as tr_rev
 from gen import c07_pointid as tr_pid
 
 ID = "C07"
-PROPS_FILES = ["Gama/Props/C07.lean", "Gama/Props/C07Compose.lean", "Gama/Props/C07Revision.lean"]
-LEAN_TARGETS = ["Gama.Props.C07", "Gama.Props.C07Compose", "Gama.Props.C07Revision"]
+PROPS_FILES = ["Gama/Props/C07.lean", "Gama/Props/C07Compose.lean", "Gama/Props/C07Revision.lean",
+               "Gama/Props/C07ProjectEquations.lean"]
+LEAN_TARGETS = ["Gama.Props.C07", "Gama.Props.C07Compose", "Gama.Props.C07Revision", "Gama.Props.C07ProjectEquations"]
 DRIVERS = ["drv_input"]
 RULE = ("(a) input stream: PointID pairs from a pool of ASCII / digit / leading-zero / white-space / UTF-8 / long "
         "identifiers and random byte strings (distinct by the pair of byte strings, non-trivial = the two normalised "
